@@ -1,20 +1,63 @@
 ----------------------------- MODULE TaskingInitGen ----------------------------
-(* Generation instance of TaskingInit: TLC dumps the complete state graph; the  *)
-(* orchestrator enumerates its paths = ALL histories of Init / Query / Loop up  *)
+(* Generation instances of TaskingInit: TLC dumps the complete state graph; the *)
+(* orchestrator takes its histories from the graph's paths.                     *)
+(*                                                                             *)
+(* Base instance (TaskingInitGen.cfg): ALL histories of Init / Query / Loop up  *)
 (* to a length, over the initialisation arguments {-1, 0, 1, 2, 3, 8, 2H}       *)
 (* (H = hardware threads of this machine, read by the driver and handed over    *)
-(* in the environment), two issuing threads and two loop shapes.  The ghost     *)
-(* variable `last` carries what the contract determines exactly (exp.r); query  *)
-(* results and loop summaries the contract leaves open are not part of `last`,  *)
-(* so that one edge stands for all of them.                                     *)
+(* in the environment), two issuing threads and two loop shapes.                *)
+(* Wide instance (TaskingInitGenWide.cfg): every n in -2..2H+1, random walks.   *)
+(* Boundary instance (TaskingInitGenB.cfg, _thorough): the corners of the       *)
+(* statement's quantifier - counts at the hardware boundary (H-1, H, H+1, 2H-1, *)
+(* 2H), far negative counts, initialisation from another thread and with        *)
+(* flushDenormals, a thread that exists before the first initialisation, loop   *)
+(* sizes from no task over "one more than the count" to beyond internal block   *)
+(* sizes, every index type / loop API, bursts of 255 / 256 / 257 (thorough:     *)
+(* 65535 / 65536 / 65537) re-initialisations or loops as single macro steps,    *)
+(* two loops issued at the same moment by two threads.                          *)
+(*                                                                             *)
+(* The ghost variable `last` carries what the contract determines exactly       *)
+(* (exp.r) and the spec-computed loop size (arg.k); query results and loop      *)
+(* summaries the contract leaves open are not part of `last`, so that one edge  *)
+(* stands for all of them.                                                      *)
 EXTENDS TaskingInit, IOUtils
 
-HW == IF "HW" \in DOMAIN IOEnv THEN atoi(IOEnv.HW) ELSE 16
+GenHW == IF "HW" \in DOMAIN IOEnv THEN atoi(IOEnv.HW) ELSE 16
 GenBackend == IF "BACKEND" \in DOMAIN IOEnv THEN IOEnv.BACKEND ELSE "TBB"
-GenNs   == {-1, 0, 1, 2, 3, 8, 2 * HW}
-GenRSet == {0, 1, 2, 3, 8, 2 * HW}            \* every exact answer occurs; 1 stands for "some positive default"
+GenNs   == {-1, 0, 1, 2, 3, 8, 2 * GenHW}
+GenRSet == {0, 1, 2, 3, 8, 2 * GenHW}         \* every exact answer occurs; 1 stands for "some positive default"
 \* wide instance: every count in 1..2H and a few around the ends, for long seeded random walks
-GenNsWide   == (-2)..(2 * HW + 1)
-GenRSetWide == 0..(2 * HW + 1)
+GenNsWide   == (-2)..(2 * GenHW + 1)
+GenRSetWide == 0..(2 * GenHW + 1)
 GenDSet == {<<>>, <<1, -1>>}                  \* stands for "some loop"; a single body is allowed in every state
+
+\* ---- boundary instance ------------------------------------------------------
+Main == "init-thread"
+BNs == {-2147483647, -65536, -2, -1, 0, 1, 2, 3, GenHW - 1, GenHW, GenHW + 1, 2 * GenHW - 1, 2 * GenHW} \ {x \in {GenHW - 1} : x < 1}
+BInitOpts ==
+  {[n |-> n, from |-> Main, fz |-> FALSE] : n \in BNs}
+  \cup {[n |-> n, from |-> "second-thread", fz |-> FALSE] : n \in {0, 3, GenHW + 1}}
+  \cup {[n |-> n, from |-> "early-thread", fz |-> FALSE] : n \in {2}}
+  \cup {[n |-> n, from |-> Main, fz |-> TRUE] : n \in {-1, 3}}
+BFroms == {Main, "second-thread", "early-thread"}
+BRSet  == {0, 1, 2, 3, GenHW - 1, GenHW, GenHW + 1, 2 * GenHW - 1, 2 * GenHW}
+FlatSizes == {"zero", "one", "below", "equal", "above", "x4", "x4p1", "b1025", "b4097"}
+Apis      == {"for:size_t", "for:u8", "for:short", "for:i64", "for:int:lvalue", "blocks", "foreach"}
+BVariants(big) ==
+  {[shape |-> "flat", size |-> s, api |-> "for:int"] : s \in FlatSizes \cup big}
+  \cup {[shape |-> "flat", size |-> "x4", api |-> a] : a \in Apis}
+  \cup {[shape |-> "nested", size |-> s, api |-> "for:int"] : s \in {"above", "x4"}}
+  \cup {[shape |-> "nested", size |-> "x4", api |-> "for:size_t"]}
+BLoopOptsOf(big) == {[from |-> f] @@ v : f \in BFroms, v \in BVariants(big)}
+BLoopOpts   == BLoopOptsOf({})
+BLoopOptsTh == BLoopOptsOf({"b65537"})
+Cyc == <<1, 2, 3>>
+BBurstOptsOf(cnts) == {[cnt |-> c, n |-> 2, cyc |-> Cyc] : c \in cnts} \cup {[cnt |-> 256, n |-> -1, cyc |-> Cyc], [cnt |-> 2, n |-> 3, cyc |-> Cyc]}
+BBurstOpts   == BBurstOptsOf({255, 256, 257})
+BBurstOptsTh == BBurstOptsOf({255, 256, 257, 4095, 4096, 4097, 65535, 65536, 65537})
+BLBurstOptsOf(cnts) == {[from |-> f, cnt |-> c] : f \in {Main, "second-thread"}, c \in cnts}
+BLBurstOpts   == BLBurstOptsOf({255, 256, 257})
+BLBurstOptsTh == BLBurstOptsOf({255, 256, 257, 4097})
+BDSet == {<<1, -1>>}                        \* stands for "some loop" (not part of `last`)
+BPairOpts == {[from |-> "two-threads", shape |-> "flat", size |-> s, api |-> "for:int"] : s \in {"above", "x4"}}
 ===============================================================================
